@@ -16,6 +16,8 @@
 (*   6. how an edge arises from two functions (MapSpecs -> via, names),     *)
 (*   7. a consumer with several array inputs: every input is judged by its  *)
 (*      own MapSpec entry (locality laws).                                  *)
+(*   8. how else a parameter may get a value (defaults, bound values): a    *)
+(*      default never cuts an edge, a bound value cuts its own edge only.   *)
 (***************************************************************************)
 EXTENDS Naturals, Sequences, FiniteSets
 
@@ -307,10 +309,18 @@ RenameAll(steps, n) == IF steps = <<>> THEN n ELSE RenameAll(Tail(steps), Rename
 CurrentOutputs(prod)  == [i \in DOMAIN prod.outs |-> RenameAll(prod.steps, prod.outs[i])]
 OutputAnn(prod, name) == prod.anns[CHOOSE i \in DOMAIN prod.outs : CurrentOutputs(prod)[i] = name]
 (* cons = [params |-> <<[n |-> current parameter name, t |-> annotation]>>, ms |-> MapSpec (in current names)] *)
-(* The edges between a producer and a consumer: one per parameter that names a current output.             *)
+(* A parameter record may also say how ELSE the parameter can get a value (field `sup`, section 8); a      *)
+(* parameter without that field has nothing but the pipeline to supply it.                                 *)
+SupplyKinds   == {"none", "sig", "default", "bound"}
+SupOf(q)      == IF "sup" \in DOMAIN q THEN q.sup ELSE "none"
+CutsEdge(sup) == sup = "bound"                 \* section 8: only a bound value takes the place of the upstream output
+(* The edges between a producer and a consumer: one per parameter that names a current output and is not   *)
+(* cut off from it (Pipeline._make_graph: `if arg in self.output_to_func: if arg in f._bound: <_Bound node> *)
+(* else: add_edge(output_to_func[arg], f)`).                                                                *)
 NamedEdges(prod, cons) ==
     LET cur  == CurrentOutputs(prod)
-        hit  == {i \in DOMAIN cons.params : \E j \in DOMAIN cur : cur[j] = cons.params[i].n}
+        hit  == {i \in DOMAIN cons.params : /\ \E j \in DOMAIN cur : cur[j] = cons.params[i].n
+                                            /\ ~CutsEdge(SupOf(cons.params[i]))}
         pms  == [prod.ms EXCEPT !.outs = [i \in DOMAIN prod.ms.outs |->
                                             Arr(RenameAll(prod.steps, prod.ms.outs[i].n), prod.ms.outs[i].ax)]]
         edge(i) == [p |-> OutputAnn(prod, cons.params[i].n), c |-> cons.params[i].t,
@@ -361,4 +371,44 @@ LawEdgewise(prods, cons)    ==
           LET solo == {ConstructNet(prods, SoloCons(cons, i), v) : i \in DOMAIN cons.params} IN
           ConstructNet(prods, cons, v) = IF "TypeError" \in solo THEN "TypeError"
                                          ELSE IF "either" \in solo THEN "either" ELSE "accept"
+
+---------------------------------------------------------------------------
+(* 8. HOW ELSE A PARAMETER MAY GET A VALUE: defaults and bound values.                                       *)
+(*                                                                                                         *)
+(* Besides the pipeline (an upstream output or a pipeline input) a parameter of a function can be given a   *)
+(* value in three ways; the field `sup` of a parameter record says which (SupplyKinds, section 6b):         *)
+(*   "sig"     a default in the Python signature            def g(y: str = "")                              *)
+(*   "default" a default set through the PipeFunc           PipeFunc(g, .., defaults={y: ..}),               *)
+(*             @pipefunc(defaults=..), g.update_defaults(..), pipeline.update_defaults(..)   (PipeFunc._defaults) *)
+(*   "bound"   a bound value                                PipeFunc(g, .., bound={y: ..}), g.update_bound(..) *)
+(* A DEFAULT is what the function gets when nothing supplies the parameter.  A parameter that names the     *)
+(* output of another function is always supplied -- by that function: the default is dead                   *)
+(* (validate_consistent_defaults skips it: `arg in output_to_func`), the upstream value is what arrives,    *)
+(* the edge is an edge like any other and has to be validated.  A BOUND value is fixed: the function gets   *)
+(* it whatever the pipeline computes, _make_graph puts a _Bound node in the place of the producer, there is  *)
+(* no edge and hence nothing to validate -- for THAT parameter; the other parameters of the same consumer    *)
+(* keep their edges.  (PipeFunc refuses a bound parameter that the function's own MapSpec indexes.)          *)
+(* All of this is CutsEdge in NamedEdges above; here are the derived notions and the laws.                  *)
+WithSup(q, s)        == [n |-> q.n, t |-> q.t, sup |-> s]
+(* the consumer with every default / bound value forgotten *)
+Unsupplied(cons)     == [cons EXCEPT !.params = [i \in DOMAIN cons.params |-> WithSup(cons.params[i], "none")]]
+BoundNames(cons)     == {cons.params[i].n : i \in {j \in DOMAIN cons.params : CutsEdge(SupOf(cons.params[j]))}}
+SupplyWellFormed(cons) == /\ \A i \in DOMAIN cons.params : SupOf(cons.params[i]) \in SupplyKinds
+                          /\ BoundNames(cons) \cap ArrNames(cons.ms.ins) = {}
+
+(* laws *)
+(* a default -- in the signature or through the PipeFunc, on the wired parameter or on any other -- changes  *)
+(* neither the edges nor the outcome of the construction                                                     *)
+LawDefaultKeepsEdges(prods, cons) ==
+    (BoundNames(cons) = {}) =>
+        /\ NetEdges(prods, cons) = NetEdges(prods, Unsupplied(cons))
+        /\ \A v \in BOOLEAN : ConstructNet(prods, cons, v) = ConstructNet(prods, Unsupplied(cons), v)
+(* a bound value removes exactly the edges into the parameters it is bound to; what is left is judged as ever *)
+LawBoundCutsOwnEdge(prods, cons) ==
+    LET all == NetEdges(prods, Unsupplied(cons)) IN
+    /\ NetEdges(prods, cons) = {e \in all : e.n \notin BoundNames(cons)}
+    /\ \A v \in BOOLEAN :
+          LET vs == {EdgeVerdict(e.p, e.c, e.via) : e \in {x \in all : x.n \notin BoundNames(cons)}} IN
+          ConstructNet(prods, cons, v) = IF ~v THEN "accept" ELSE IF "no" \in vs THEN "TypeError"
+                                         ELSE IF "either" \in vs THEN "either" ELSE "accept"
 =============================================================================
